@@ -41,7 +41,7 @@ func drvCase(c *ctx, r *rng.R, path string, bind int, arr []arrival, special str
 	steps := func(req []byte) []step {
 		out := []step{}
 		for _, a := range arr {
-			out = append(out, step{time.Duration(a.ms) * time.Millisecond, datagram(r, a.class, serial, card)})
+			out = append(out, step{time.Duration(a.ms) * time.Millisecond, datagram(r, a.class, serial, card), false})
 		}
 		return out
 	}
@@ -105,6 +105,8 @@ func drvCase(c *ctx, r *rng.R, path string, bind int, arr []arrival, special str
 	out := "err"
 	if err == errHung {
 		out = "hung"
+	} else if err == errPanic {
+		out = "panic"
 	} else if err == nil && res != nil && res.CardNumber == card {
 		out = "ok"
 	} else if err == nil {
@@ -323,6 +325,65 @@ func streamLock(c *ctx) {
 			c.w.Emit(fmt.Sprintf("lock %s reply-after=%d%s", path, delay.Milliseconds(), note), fmt.Sprintf("first:%s second:%s %s", o1, o2, within), "lock/"+path, "lock/second-"+o2)
 		}
 	}
+	// three calls queued on one fixed bind port: the first two controllers are silent, so the third call has waited
+	// two whole timeouts for the port when its turn comes - its one request must still go out, and the prompt reply
+	// be accepted (a deadline taken when the call was MADE has long passed by then)
+	for _, path := range []string{"udp", "tcp", "broadcast"} {
+		bind := freePort()
+		var eps [3]string
+		var closers []func()
+		var third func() int
+		for k := 0; k < 3; k++ {
+			script := echo(func() time.Duration { return 20 * time.Millisecond })
+			if path == "tcp" {
+				a := newTCPResponder("127.0.0.1", script)
+				a.stall = k < 2
+				eps[k] = a.addr()
+				closers = append(closers, a.close)
+				third = a.received
+			} else {
+				if k < 2 {
+					script = nil
+				}
+				a := newUDPResponder("127.0.0.1", script)
+				eps[k] = a.addr()
+				closers = append(closers, a.close)
+				third = a.received
+			}
+		}
+		var wg sync.WaitGroup
+		o3 := ""
+		for k := 0; k < 3; k++ {
+			serial := uint32(1000031 + k)
+			u := newRealClient(clientCfg{path, bind, "", false, T}, serial, eps[k])
+			wg.Add(1)
+			go func(k int) {
+				defer wg.Done()
+				res, err := getCard(u, serial, uint32(300+k))
+				if k == 2 {
+					switch {
+					case err == errHung:
+						o3 = "hung"
+					case err == errPanic:
+						o3 = "panic"
+					case err != nil:
+						o3 = "err"
+					case res == nil || res.CardNumber != 302:
+						o3 = "crossed"
+					default:
+						o3 = "ok"
+					}
+				}
+			}(k)
+			time.Sleep(15 * time.Millisecond) // each later call finds the port taken and queues
+		}
+		wg.Wait()
+		n := third()
+		for _, f := range closers {
+			f()
+		}
+		c.w.Emit("lock3 "+path, fmt.Sprintf("third:%s requests=%d", o3, n), "lock/three-queued")
+	}
 	// two overlapping calls from the same fixed bind port to the SAME controller (one client, then two), the client
 	// built with and without a listen address: the second waits for the port, each gets the reply to its own request
 	for _, listen := range []string{"listen-address", "no-listen-address"} {
@@ -375,7 +436,7 @@ func streamLock(c *ctx) {
 			if len(req) != 64 {
 				return nil
 			}
-			return []step{{T + 60*time.Millisecond, cardReply(1000011, 111)}}
+			return []step{{T + 60*time.Millisecond, cardReply(1000011, 111), false}}
 		})
 		prompt := newUDPResponder("127.0.0.1", echo(func() time.Duration { return 120 * time.Millisecond }))
 		u1 := newRealClient(clientCfg{"broadcast", bind, "", false, T}, 1000011, late.addr())
@@ -463,7 +524,7 @@ func streamLeak(c *ctx) {
 			n++
 		}
 		// discovery starts a reader goroutine per call
-		rs := newUDPResponder("127.0.0.1", func(req []byte) []step { return []step{{5 * time.Millisecond, cardReply(1, 1)}} })
+		rs := newUDPResponder("127.0.0.1", func(req []byte) []step { return []step{{5 * time.Millisecond, cardReply(1, 1), false}} })
 		u := newRealClient(clientCfg{"broadcast", 0, "", false, T}, 1, rs.addr())
 		u.GetDevices()
 		u.GetDevices()
